@@ -239,6 +239,26 @@ def comp_st(draw, cfg):
     return comp
 
 
+
+def lone_entry_tracks(meters=None):
+    """deterministic: tracks whose first bars hold ONE entry each - a rest (None / empty container) or a note of value 1, 2, 4 or
+    the beat unit - in every meter, followed by a sounding bar (a lone whole rest is how notation writes a silent bar of any
+    length: here it lasts what its value says).  One track per (meter, value)."""
+    out = []
+    for m in (meters or ALL_METERS):
+        length = Fr(m[0], m[1])
+        for base in sorted({1, 2, 4, m[1]}):
+            if Fr(1, base) > length:
+                continue
+            v = [base, 0, 1, 1]
+            bars = [{"key": "C", "meter": m, "entries": [{"v": v, "notes": None}]},
+                    {"key": "C", "meter": m, "entries": [{"v": v, "notes": []}]},
+                    {"key": "C", "meter": m, "entries": [{"v": v, "notes": [["E", 4, 2, 90]]}]},
+                    {"key": "C", "meter": m, "entries": [{"v": v, "notes": None}]},
+                    {"key": "C", "meter": m, "entries": [{"v": [m[1], 0, 1, 1], "notes": [["G", 3, 1, 64], ["B", 3, 1, 64]]}]}]
+            out.append({"name": "lone %d/%d" % (m[0], m[1]), "instr": None, "bars": bars})
+    return out
+
 # ---- classification helpers (shared non-triviality vocabulary) ------------------------------------------
 
 def entries_of(track):
